@@ -157,7 +157,7 @@ var _ = reg("C05_Wide", C05_Wide)
 var widePaths = []string{
 	"X[0 to last]", "X[0 to 1, 1]", "X[1 to 2].type()", "X[*]", "X[last, 0]", "X[0 to 2] ? (@ == null)", "X[*] ? (@ > 1)",
 	"X.**", "-X[*]", "X[*].double()", "X.size()", "X[0 to last] == null", "exists(X[1 to last])", "X[0 to 1][0 to last]",
-	"X ? (@[0 to last] > 1)", "X[1 to last] + 1",
+	"X ? (@[0 to last] > 1)", "X[1 to last] + 1", "X[$i to $j]", "X[$i, $j to last]",
 }
 
 // C05_Wide: purity on arrays of three elements with nulls anywhere among
@@ -175,7 +175,8 @@ func C05_Wide() {
 	case 2:
 		root = "$v"
 	}
-	vars := exec.Vars{"v": a2}
+	bound := nd.Spec{Kinds: nd.KFloat | nd.KInt64}
+	vars := exec.Vars{"v": a2, "i": nd.JSON(bound), "j": nd.JSON(bound)}
 	tpl := widePaths[nd.Choice(len(widePaths))]
 	src := ""
 	for i := 0; i < len(tpl); i++ {
